@@ -1035,3 +1035,48 @@ def rule_errprop_io(ctx, R):
 def runner_stable(fn):
     import runner
     return runner.stable_fn(fn) if hasattr(runner, "stable_fn") else fn
+
+
+def decimal_buffer_issues(b):
+    """[(bb, N, need)] for stack buffers `[0u8; N]` that a digit loop (`% 10`, `/ 10`) fills with
+    the decimal form of a 64-bit integer: 20 bytes are needed (19 digits + sign for i64, 20 digits
+    for u64)"""
+    bufs = []
+    for x, bb in enumerate(b.bbs):
+        for st in bb["s"]:
+            if st["k"] == "=" and st["r"]["k"] == "repeat" and b.locals[st["l"]["l"]].startswith("[u8;"):
+                try:
+                    n = int(str(st["r"]["n"]).split("_")[0])
+                except Exception:
+                    m = re.match(r"^\\[u8; (\\d+)\\]$", b.locals[st["l"]["l"]])
+                    n = int(m.group(1)) if m else None
+                if n is not None:
+                    bufs.append((x, n))
+    if not bufs:
+        return []
+    digit_loop = False; wide = False
+    for bb in b.bbs:
+        for st in bb["s"]:
+            if st["k"] == "=" and st["r"]["k"] == "bin" and st["r"]["op"] in ("Rem", "Div") and const_int(st["r"]["b"]) == 10:
+                digit_loop = True
+                if not op_is_const(st["r"]["a"]) and b.locals[op_place(st["r"]["a"])["l"]] in ("u64", "i64", "u128", "i128", "usize", "isize"):
+                    wide = True
+    if not (digit_loop and wide):
+        return []
+    signed = any(b.locals[p] in ("i64", "isize") for p in range(1, b.nargs + 1))
+    need = 20
+    return [(x, n, need) for x, n in bufs if n < need]
+
+
+def rule_codec_decbuf(ctx, R):
+    n = 0
+    for fn, b in sorted(ctx.prog.bodies.items()):
+        if not fn.startswith(("protocol::", "network::connection::")) or "::tests::" in fn:
+            continue
+        n += 1
+        for x, size, need in decimal_buffer_issues(b):
+            R.inst(fn, "decimal-buffer", {"function": fn, "bytes": size, "needed": need})
+            R.finding(fn, "decimal-buffer:%d-bytes" % size,
+                      "%s formats a 64-bit integer into a %d-byte stack buffer; -9223372036854775808 needs %d bytes (19 digits and the sign), so the write position underflows and the serializer panics on replies below -10^18" % (fn.split("::")[-1], size, need), b.loc(x))
+    R.inst("protocol", "functions-scanned-for-decimal-buffers", {"functions": n})
+    R.floor("codec_functions_scanned", min(n, 30))
